@@ -2,9 +2,12 @@ package diam
 
 import (
 	"fmt"
+	"math"
 	"math/big"
+	"sort"
 	"strconv"
 	"strings"
+	"sync"
 	"testing"
 	"time"
 
@@ -392,4 +395,99 @@ func stripOptionalRatingAVPs(m *diam.Message) {
 		g.AVP = kept
 		m.Header.MessageLength = uint32(m.Len())
 	}
+}
+
+// Parallel: several consumers' connections rate at the same time, each subscriber with a tariff of its own.  Every
+// answer must price with - and carry - the tariff of its own subscriber, whatever the other connections are doing.
+type parCase struct {
+	Costs  []int `json:"costs"`  // unit cost of subscriber i (one connection each)
+	Rounds int   `json:"rounds"` // requests per connection
+}
+
+func plainSUR(p *Peer, supi string, subType int, consumed, quota uint32) (*cdt.ServiceUsageResponse, error) {
+	sur := &cdt.ServiceUsageRequest{SessionId: "verif-par", OriginHost: "verif-client", OriginRealm: "verif", DestinationRealm: "go-diameter", DestinationHost: "server",
+		UserName: datatype.OctetString("CHF"), ActualTime: datatype.Time(time.Now()),
+		SubscriptionId: &cdt.SubscriptionId{SubscriptionIdType: cdt.END_USER_IMSI, SubscriptionIdData: datatype.UTF8String(supi[5:])},
+		ServiceRating:  &cdt.ServiceRating{ServiceIdentifier: 1, RequestSubType: cdt.RequestSubType(subType), ConsumedUnits: datatype.Unsigned32(consumed), MonetaryQuota: datatype.Unsigned32(quota)}}
+	msg := diam.NewRequest(ccode.ServiceUsageMessage, ccode.Re_interface, dict.Default)
+	if err := msg.Marshal(sur); err != nil {
+		return nil, err
+	}
+	ans, err := p.Do(msg, 3*time.Second)
+	if err != nil || ans == nil {
+		return nil, fmt.Errorf("no answer (%v)", err)
+	}
+	var sua cdt.ServiceUsageResponse
+	if err := ans.Unmarshal(&sua); err != nil {
+		return nil, err
+	}
+	return &sua, nil
+}
+
+func judgePar(c parCase) *h.Verdict {
+	v := &h.Verdict{NonTrivial: len(c.Costs) >= 2}
+	v.Label(fmt.Sprintf("connections:%d", len(c.Costs)))
+	type res struct{ sig, msg string }
+	out := make([]res, len(c.Costs))
+	var wg sync.WaitGroup
+	start := make(chan struct{})
+	for i, cost := range c.Costs {
+		supi := env.NewSupi()
+		env.SetAccount(supi, 1, 1_000_000, fmt.Sprint(cost))
+		p, err := Dial(env.RfPort, env.PemFile, env.KeyFile, "SUA")
+		if err != nil {
+			return v.Failf("HARNESS-dial", "%v", err)
+		}
+		wg.Add(1)
+		go func(i, cost int, supi string, p *Peer) {
+			defer wg.Done()
+			defer p.Close()
+			<-start
+			for k := 0; k < c.Rounds; k++ {
+				consumed := uint32(1 + (k*7+i)%50)
+				sub := 2 - k%2 // debit, reserve, debit, ...
+				quota := consumed*uint32(cost) + uint32(k%3)
+				sua, err := plainSUR(p, supi, sub, consumed, quota)
+				if err != nil || sua.ServiceRating == nil {
+					out[i] = res{"no-answer/parallel", fmt.Sprintf("connection %d (unit cost %d), request %d: %v", i, cost, k, err)}
+					return
+				}
+				sr := sua.ServiceRating
+				digits := int64(-1)
+				if sr.MonetaryTariff != nil && sr.MonetaryTariff.RateElement != nil && sr.MonetaryTariff.RateElement.UnitCost != nil {
+					digits = int64(float64(sr.MonetaryTariff.RateElement.UnitCost.ValueDigits) * math.Pow10(int(sr.MonetaryTariff.RateElement.UnitCost.Exponent)))
+				}
+				if digits != int64(cost) {
+					out[i] = res{"foreign-tariff/parallel", fmt.Sprintf("connection %d, request %d: the answer carries unit cost %d, the subscriber's tariff is %d (costs of the connections: %v)", i, k, digits, cost, c.Costs)}
+					return
+				}
+				if sub == 2 && uint32(sr.Price) != consumed*uint32(cost) {
+					out[i] = res{"debit-price/parallel", fmt.Sprintf("connection %d, request %d: %d units at unit cost %d priced %d (costs of the connections: %v)", i, k, consumed, cost, sr.Price, c.Costs)}
+					return
+				}
+				if want := quota / uint32(cost); sub == 1 && (uint32(sr.AllowedUnits) != want || uint32(sr.Price) != want*uint32(cost)) {
+					out[i] = res{"allowed-units/parallel", fmt.Sprintf("connection %d, request %d: quota %d at unit cost %d allowed %d units priced %d (costs of the connections: %v)", i, k, quota, cost, sr.AllowedUnits, sr.Price, c.Costs)}
+					return
+				}
+			}
+		}(i, cost, supi, p)
+	}
+	close(start)
+	wg.Wait()
+	sort.Slice(out, func(a, b int) bool { return out[a].sig > out[b].sig })
+	if out[0].sig != "" {
+		return v.Failf(out[0].sig, "%s", out[0].msg)
+	}
+	return v
+}
+
+func TestC08Parallel(t *testing.T) {
+	h.Run(t, "C08", "parallel", func(t *rapid.T) parCase {
+		n := rapid.IntRange(2, 6).Draw(t, "connections")
+		c := parCase{Rounds: rapid.IntRange(10, h.Scale(60, 300)).Draw(t, "rounds")}
+		for i := 0; i < n; i++ {
+			c.Costs = append(c.Costs, rapid.SampledFrom([]int{1, 2, 3, 7, 12, 100, 999}).Draw(t, "cost"))
+		}
+		return c
+	}, judgePar)
 }
